@@ -494,8 +494,8 @@ func checkCommitStructure(p *Prog, r *Roles, res *Result) {
 				continue
 			}
 			switch {
-			case f == commit:
-				// dominated by b.err == nil
+			case p.onlyWithin(f, commit, 0):
+				// dominated by b.err == nil (in Commit itself or, for a helper of Commit, at its call sites)
 				g := false
 				for _, cf := range dominatingFacts(c.Block()) {
 					if cf.X != nil && isNilConst(cf.Y) && ((cf.Op == token.NEQ && !cf.Want) || (cf.Op == token.EQL && cf.Want)) {
@@ -686,6 +686,52 @@ func checkIterBounds(p *Prog, r *Roles, res *Result) {
 
 // ---------- R5 ----------
 
+// unwrapsParam: v is prm, or a field of the value type-asserted out of prm, directly or as the result of a local
+// helper applied to prm.
+func (p *Prog) unwrapsParam(v ssa.Value, prm *ssa.Parameter, depth int) bool {
+	if depth > 3 {
+		return false
+	}
+	v = p.resolveDeep(v)
+	if v == ssa.Value(prm) {
+		return true
+	}
+	switch x := v.(type) {
+	case *ssa.UnOp:
+		if fa, ok := x.X.(*ssa.FieldAddr); ok {
+			if ta, ok := p.resolveDeep(fa.X).(*ssa.TypeAssert); ok {
+				return p.unwrapsParam(ta.X, prm, depth+1)
+			}
+		}
+	case *ssa.Field:
+		if ta, ok := p.resolveDeep(x.X).(*ssa.TypeAssert); ok {
+			return p.unwrapsParam(ta.X, prm, depth+1)
+		}
+	case *ssa.Call:
+		sc := x.Common().StaticCallee()
+		if sc == nil || sc.Blocks == nil || sc.Pkg != prm.Parent().Pkg || sc.Signature.Results().Len() != 1 {
+			return false
+		}
+		for ai, a := range x.Common().Args {
+			if ai >= len(sc.Params) || !p.unwrapsParam(a, prm, depth+1) {
+				continue
+			}
+			all := true
+			for _, b := range sc.Blocks {
+				if ret, ok := b.Instrs[len(b.Instrs)-1].(*ssa.Return); ok {
+					if !p.unwrapsParam(ret.Results[0], sc.Params[ai], depth+1) {
+						all = false
+					}
+				}
+			}
+			if all {
+				return true
+			}
+		}
+	}
+	return false
+}
+
 func checkWrapperTransparency(p *Prog, r *Roles, res *Result) {
 	wp := p.ssaPkg("pkg/storage/metrics")
 	ifaces := []struct{ pkg, name string }{{"pkg/storage", "KvStorage"}, {"pkg/storage", "BatchWrite"}, {"pkg/storage", "Iter"}}
@@ -717,16 +763,9 @@ func checkWrapperTransparency(p *Prog, r *Roles, res *Result) {
 			for pi := 0; pi < sig.Params().Len(); pi++ {
 				arg := p.resolveDeep(argForSigParam(c, pi))
 				want := f.Params[pi+1]
-				if arg == ssa.Value(want) {
+				// the parameter itself, or the iterator unwrapped from it: (param.(*iterWrapper)).Iter, possibly in a helper
+				if p.unwrapsParam(arg, want, 0) {
 					continue
-				}
-				// unwrapped iterator: (param.(*iterWrapper)).Iter
-				if ld, ok := arg.(*ssa.UnOp); ok {
-					if fa, ok := ld.X.(*ssa.FieldAddr); ok {
-						if ta, ok := p.resolveDeep(fa.X).(*ssa.TypeAssert); ok && p.resolveDeep(ta.X) == ssa.Value(want) {
-							continue
-						}
-					}
 				}
 				bad = fmt.Sprintf("argument #%d of the forwarded call is not parameter %q", pi, want.Name())
 			}
